@@ -100,6 +100,7 @@ class VLoop(asyncio.SelectorEventLoop):
         self._injections: dict[int, list[Callable[[], None]]] = {}
         self._step_hooks: list[Callable[[int], None]] = []
         self._executor_jobs = 0
+        self.thread_time = False
         self.sig_handlers: dict[int, tuple] = {}
         orig = self._selector.select
 
@@ -113,6 +114,11 @@ class VLoop(asyncio.SelectorEventLoop):
                 while not ev:
                     ev = orig(0.002)
                     waited += 0.002
+                    if not ev and self.thread_time and timeout is not None and timeout > 0:
+                        # opt-in (scenarios whose threads block on each other): timers keep firing while threads run,
+                        # virtual time follows real time in 2 ms steps
+                        self._vtime += min(timeout, 0.002)
+                        return ev
                     if waited > 30.0:
                         raise Deadlock("executor job did not finish within 30 s real time")
                 return ev
@@ -292,12 +298,13 @@ def install() -> int:
 
 
 def run(coro_fn: Callable[..., Any], *args: Any, max_steps: int = 2_000_000, max_vtime: float = 1e7,
-        start: float = 0.0, jitter_seed: int | None = None) -> Any:
+        start: float = 0.0, jitter_seed: int | None = None, thread_time: bool = False) -> Any:
     """Run `await coro_fn(loop, *args)` on a fresh VLoop; always tears the loop down."""
     global _current
     install()
     loop = VLoop(max_steps=max_steps, max_vtime=max_vtime, jitter_seed=jitter_seed)
     loop._vtime = start
+    loop.thread_time = thread_time
     prev = _current
     _current = loop
     asyncio.set_event_loop(loop)
